@@ -22,6 +22,7 @@ EXPLANATION = (
     "of the type and +1 when only the second is; float before an equal integer; compound order arity, then name, then arguments. "
     "Agreement with Yap/SWI for every pair of terms (collation of quoted atoms, variable ordering) is value-level and not decided."
     " Added after seed round 8: O7 no builtin registration closes over a loop variable."
+    " Added after seed round 10: O2 follows a comparison helper of StructSort (inlining bound 1): it must only ever return struct_cmp(self.obj, other.obj); any other answer is an order of sort/2's own."
 )
 TECHNIQUE = "static analysis: CFG data-flow (three-way-result typestate), operator/registration table agreement"
 
@@ -241,6 +242,39 @@ def _cmp_with_zero(e):
     return None
 
 
+def _through_helper(c, f, e, col, m, mname):
+    """e is `self.h(other) <op> 0` (or mirrored) with h a method of the class: (opcls, X, Y) in terms of f's parameters when h only ever returns
+    struct_cmp(self.obj, other.obj); 'reported' when h has another answer (violation recorded); None when the shape is something else"""
+    if not (isinstance(e, ast.Compare) and len(e.ops) == 1):
+        return None
+    l, r = e.left, e.comparators[0]
+    flip = {ast.Lt: ast.Gt, ast.Gt: ast.Lt, ast.LtE: ast.GtE, ast.GtE: ast.LtE, ast.Eq: ast.Eq, ast.NotEq: ast.NotEq}
+    if isinstance(r, ast.Constant) and r.value == 0 and isinstance(l, ast.Call):
+        call, op = l, type(e.ops[0])
+    elif isinstance(l, ast.Constant) and l.value == 0 and isinstance(r, ast.Call):
+        call, op = r, flip[type(e.ops[0])]
+    else:
+        return None
+    selfp, otherp = f.params[0], f.params[1]
+    if not (isinstance(call.func, ast.Attribute) and norm(call.func.value) == selfp and call.func.attr in c.methods and len(call.args) == 1 and norm(call.args[0]) == otherp and not call.keywords):
+        return None
+    h = c.methods[call.func.attr]
+    if len(h.params) != 2:
+        return None
+    hs, ho = h.params
+    rets = [x for x in walk_no_nested(h.node) if isinstance(x, ast.Return)]
+    other = [x for x in rets if not (x.value is not None and isinstance(x.value, ast.Call) and dotted(x.value.func) == "struct_cmp" and len(x.value.args) == 2
+                                     and [norm(a) for a in x.value.args] == ["%s.obj" % hs, "%s.obj" % ho])]
+    if not rets:
+        return None
+    if other:
+        col.fail("O2", m, other[0], "StructSort.%s compares through %s, which answers some pairs with %s instead of struct_cmp(self.obj, other.obj): sort/2 then orders those pairs by a "
+                 "rule of its own and disagrees with compare/3 and @</2 (floats before all integers: sort([3, 2.5, 1], L) gives [2.5, 1, 3])" % (mname, h.qualname, norm(other[0])[:70]),
+                 construct="StructSort.%s: order decided outside struct_cmp" % mname, function="StructSort.%s" % mname)
+        return "reported"
+    return op, ast.parse("%s.obj" % selfp, mode="eval").body, ast.parse("%s.obj" % otherp, mode="eval").body
+
+
 def rule_o2(repo, col):
     c = repo.cls(MOD, "StructSort")
     m = c.module
@@ -252,6 +286,12 @@ def rule_o2(repo, col):
             continue
         e = single_return_expr(f)
         r = _cmp_with_zero(e) if e is not None else None
+        if r is None and e is not None:
+            # `self._helper(other) <op> 0`: the helper must itself be nothing but struct_cmp(self.obj, other.obj) (inlining bound 1) - a helper that answers some pairs
+            # without struct_cmp gives sort/2 an order of its own
+            r = _through_helper(c, f, e, col, m, mname)
+            if r == "reported":
+                continue
         if r is None:
             raise AnalysisError("StructSort.%s: shape not understood" % mname)
         got, x, y = r
